@@ -10,6 +10,8 @@ import (
 	"k8s.io/klog/v2"
 
 	"github.com/vmware/go-ipfix/pkg/registry"
+
+	"verifharness/colmodel"
 )
 
 type checkFn func(tier string, replay string) int
@@ -30,6 +32,8 @@ func main() {
 	klog.SetOutput(discard{})
 	klog.LogToStderr(false)
 	registry.LoadRegistry()
+	c15register()
+	colmodel.SnapshotRegistry([]uint32{0, registry.IANAReversedEnterpriseID, registry.AntreaEnterpriseID, verifPEN})
 
 	id := os.Args[1]
 	fn, ok := checks[id]
